@@ -17,7 +17,8 @@ import Driver.Util
     rm <fid>
     boot <now0>           → `<id> boot ok <loaded fids>` | `<id> boot dead` | `<id> boot zone`
     ev write <fid> | ev remove <fid>    → `<id> ev ok <loaded fids>` | `<id> ev dead`
-    tick <susp fids|-> <fid>:<code>[:<unixSec>] …   code n (never run) z ("-") r (running) f (finished) x (failed, legacy time format) e (error)
+    tick <susp fids|-> <fid>:<code>[:<unixSec>] …   code n (never run) z ("-") r (running) f (finished) x (failed, legacy time format) c (canceled)
+                          o (status none WITH a start time) e (unreadable)
                           → `<id> tick <t> <acts>`  acts: S<fid> start, T<fid> stop, R<fid> restart, sorted; `-` = none
 -/
 namespace Driver.Cron
@@ -103,16 +104,18 @@ def setFile (files : List (Nat × SchedDef)) (fid : Nat) (d : SchedDef) : List (
 
 def statusOf (toks : List String) (fid : Nat) : Status :=
   match toks.find? (fun t => (t.splitOn ":").headD "" == toString fid) with
-  | none => ⟨false, false, none⟩
+  | none => ⟨false, .none, none⟩
   | some t =>
     match t.splitOn ":" with
-    | [_, "n"] => ⟨false, false, none⟩
-    | [_, "z"] => ⟨false, false, some 0⟩
-    | [_, "e"] => ⟨true, false, none⟩
-    | [_, "r", s] => ⟨false, true, some (natD s + unixEpoch)⟩
-    | [_, "f", s] => ⟨false, false, some (natD s + unixEpoch)⟩
-    | [_, "x", s] => ⟨false, false, some (natD s + unixEpoch)⟩
-    | _ => ⟨false, false, none⟩
+    | [_, "n"] => ⟨false, .none, none⟩
+    | [_, "z"] => ⟨false, .success, some 0⟩
+    | [_, "e"] => ⟨true, .none, none⟩
+    | [_, "r", s] => ⟨false, .running, some (natD s + unixEpoch)⟩
+    | [_, "f", s] => ⟨false, .success, some (natD s + unixEpoch)⟩
+    | [_, "x", s] => ⟨false, .error, some (natD s + unixEpoch)⟩
+    | [_, "c", s] => ⟨false, .cancel, some (natD s + unixEpoch)⟩
+    | [_, "o", s] => ⟨false, .none, some (natD s + unixEpoch)⟩
+    | _ => ⟨false, .none, none⟩
 
 def actName : Act → String
   | .start d => "S" ++ toString d
